@@ -195,6 +195,32 @@ def pool_vs_descriptor_limit(ctx, base):
                       f'C06: 1000 files under RLIMIT_NOFILE=1024 (parblock): exit {out[1][0]} with one worker, exit {out[4][0]} / different result with 4 stalled workers: {out[4][2]}')
 
 
+def walk_fails_late(ctx, base):
+    """the WALK fails after most of the work has been queued (a dangling link under -L in the last source): the exit status is
+    non-zero and everything queued before the failure is still copied — the same complete partial result on every schedule,
+    worker count and driver (a walk error travels through the join, not through the update channel)"""
+    ref = None
+    for j, (driver, workers, plan) in enumerate((('parfile', 1, None), ('parfile', 8, None), ('parblock', 4, None), ('parfile', 2, ['sched 77 delay 2']),
+                                                 ('parblock', 8, ['stall copy_file_range 2000']), ('parfile', 16, ['stall copy_file_range 2000']))):
+        sc = treerun.Scn(); sc.driver, sc.workers = driver, workers
+        sc.d(b'/W').d(b'/W/good').d(b'/W/bad').l(b'/W/bad/dangling', b'nowhere')
+        for i in range(60):
+            sc.f(b'/W/good/f%d' % i, text=bytes([65 + i % 26]) * (1 + (i * 911) % 9000))
+        sc.d(b'/W/DEST'); sc.opts = ['r', 'L']; sc.extra = ['--block-size', '2048']; sc.paths = [b'good', b'bad', b'DEST']
+        o = treerun.run(base, sc, plan=plan, trace=bool(plan), timeout=90)
+        cur = (o.res.cls, tuple(t for t in o.after if b'/W/DEST'.hex() in t))
+        ctx.count(f'walk_fails_late.{driver}.{o.res.cls}'); ctx.case(('walk-fails-late', driver, workers, tuple(plan or ())), True)
+        if ref is None:
+            ref = cur
+            if cur[0] == '0' or len(cur[1]) < 60:
+                ctx.violation('walk-fails-late-ref.json', dict(exit=cur[0], entries=len(cur[1])), f'C06: reference run (one worker): exit {cur[0]} with {len(cur[1])} destination entries for a walk that fails at the very end', no_input=True)
+                return
+        elif cur != ref:
+            ctx.violation(f'walk-fails-late-{j}.json', dict(driver=driver, workers=workers, plan=plan, exit=cur[0], entries=len(cur[1]), reference_exit=ref[0], reference_entries=len(ref[1])),
+                          f'C06: a walk failing at its last entry leaves {len(cur[1])} destination entries (exit {cur[0]}) under ({driver}, {workers} workers, {plan}) but {len(ref[1])} (exit {ref[0]}) with one worker')
+            return
+
+
 def run(ctx):
     ctx.proofs()
     core.build_repo(); core.build_sup()
@@ -207,6 +233,7 @@ def run(ctx):
         process_wide_state(ctx, base)
         failing_special(ctx, base)
         pool_vs_descriptor_limit(ctx, base)
+        walk_fails_late(ctx, base)
         for i in range(n):
             sc = gen(rng)
             configs = [(d, w) for d in ('parfile', 'parblock') for w in (1, 2, 3, 8, 64)]
@@ -215,6 +242,7 @@ def run(ctx):
             model_toks = None
             for j, (driver, workers) in enumerate(chosen):
                 sc.driver, sc.workers = driver, workers
+                sc.extra = ['--no-progress'] if j == 4 else []      # must not matter either
                 mode = rng.choice(['pct', 'delay', 'pct'])
                 plan = [f'sched {ctx.seed * 1009 + i * 37 + j} {mode} {rng.randint(1, 4)}']
                 if rng.random() < 0.3:
